@@ -45,6 +45,16 @@ THEOREMS = [
     "IrVerif.Writer.C09_error_quiescent",
     "IrVerif.Writer.wfb_sound",
     "IrVerif.Writer.layoutb_sound",
+    "IrVerif.WriterN.C09_budget",
+    "IrVerif.WriterN.C09_callback_mutex",
+    "IrVerif.WriterN.C09_callback_once_partial",
+    "IrVerif.WriterN.C09_tensor_mutex",
+    "IrVerif.WriterN.C09_deadlock_free",
+    "IrVerif.WriterN.C09_terminates",
+    "IrVerif.WriterN.C09_schedule_bounded",
+    "IrVerif.WriterN.C09_maximal_terminal",
+    "IrVerif.WriterN.C09_error_quiescent",
+    "IrVerif.WriterN.wfb_sound",
 ]
 ASSUMPTIONS = [
     "threading.Lock/Condition and ThreadPoolExecutor/as_completed are modelled by their documented semantics "
@@ -57,8 +67,9 @@ ASSUMPTIONS = [
     "OS-scheduled differential runs + oracle only",
 ]
 
-STEP_TIMEOUT = 120.0
-OS_TIMEOUT = 120.0
+STEP_TIMEOUT = 40.0  # one controlled step (microseconds of work) not reaching its next park point
+OS_STALL = 15.0  # OS-scheduled run: no callback / tofile event for this long = hang
+OS_TIMEOUT = 60.0  # ... and absolute cap
 
 
 class _Abort(BaseException):
@@ -80,12 +91,15 @@ class CThread:
         self.next_task = None
         self.thread = None
         self.outcome = None
+        self.pool = None  # pool whose thread this is (None: the main thread)
+        self.executor = None
 
 
 class Sched:
     """Director side of the baton: exactly one controlled thread runs between two parks."""
 
-    def __init__(self, job_starts):
+    def __init__(self, gcfg):
+        self.gcfg = gcfg
         self.cv = _rt.Condition()
         self.running = 0
         self.by_ident = {}
@@ -93,7 +107,6 @@ class Sched:
         self.workers = []
         self.abort = False
         self.choice = None
-        self.job_starts = job_starts
         self.locks = []
         self.conds = []
         self.executors = []
@@ -110,8 +123,10 @@ class Sched:
     def park(self, op):
         ct = self.cur()
         ct.pending = op
-        if op[0] == "lock" and op[1].role == "cb":
-            # a pool thread reaches the callback lock: it is starting its next tensor
+        if op[0] == "lock" and ct.pool is not None and ct.next_task is not None and op[1].role == (
+            "cbin" if self.gcfg["pools"][ct.pool]["innerCb"] else "cb"
+        ):
+            # a pool thread reaches its first callback lock: it is starting its next tensor
             if ct.task is not None:
                 self.task_done[ct.task] = "doneOk"
             ct.task = ct.next_task
@@ -163,6 +178,17 @@ class Sched:
                 ct.sem.release()
         with self.cv:
             self.cv.wait_for(lambda: self.running <= 0, 5.0)
+
+
+def _owned_pool(sched):
+    """Pool of the executor the current thread creates: pool 0 for the main thread, the sub pool of the job a
+    driver thread is running otherwise (None: not foreseen by the configuration)."""
+    ct = sched.cur()
+    if ct is sched.main:
+        return 0
+    if ct.job is None or ct.job >= len(sched.gcfg["jobs"]):
+        return None
+    return sched.gcfg["jobs"][ct.job]["sub"]
 
 
 def _creator_name(depth=2):
@@ -300,20 +326,29 @@ class SExecutor:
         self.queue = []
         self.futs = []
         self.shutdown_flag = False
+        self.cancel_called = False
+        self.joined = False
         self.max_workers = max_workers or 1
+        self.pool = _owned_pool(sched)
+        self.owner = sched.cur()
+        self.threads = []
         sched.executors.append(self)
         base = len(sched.workers)
         for k in range(self.max_workers):
             ct = CThread(f"w{base + k}")
             ct.executor = self
+            ct.pool = self.pool
             sched.workers.append(ct)
+            self.threads.append(ct)
             sched.spawn(ct, self._worker)
 
     def submit(self, fn, *a, **kw):
         self.sched.park(("submit", self))
         if self.shutdown_flag:
             raise RuntimeError("cannot schedule new futures after shutdown")
-        fut = SFuture(self.sched, len(self.futs))
+        pj = self.sched.gcfg["pools"][self.pool]["jobs"] if self.pool is not None else []
+        fut = SFuture(self.sched, pj[len(self.futs)] if len(self.futs) < len(pj) else 10**6 + len(self.futs))
+        fut.ex = self
         self.futs.append(fut)
         self.queue.append((fut, fn, a, kw))
         return fut
@@ -328,7 +363,8 @@ class SExecutor:
                 fut.state = "running"
                 ct.job = fut.job
                 ct.task = None
-                ct.next_task = sched.job_starts[fut.job] if fut.job < len(sched.job_starts) else 10**6
+                jc = sched.gcfg["jobs"][fut.job] if fut.job < len(sched.gcfg["jobs"]) else None
+                ct.next_task = jc["start"] if jc is not None and jc["sub"] is None else None
                 try:
                     fut.value = fn(*a, **kw)
                     fut.state = "ok"
@@ -349,11 +385,13 @@ class SExecutor:
     def shutdown(self, wait=True, *, cancel_futures=False):
         self.shutdown_flag = True
         if cancel_futures:
+            self.cancel_called = True
             for fut, *_ in self.queue:
                 fut.state = "cancelled"
             self.queue = []
         if wait:
             self.sched.park(("join", self))
+            self.joined = True
 
     def __enter__(self):
         return self
@@ -399,7 +437,12 @@ def install_shim(ed, sched: Sched):
             m = re.search(r"(\w+)\s*=\s*threading\.Lock\(\)", line)
             var = m.group(1) if m else "?"
             role = "cb" if "callback" in var else ("files" if "files" in var else f"unknown:{name}:{var}")
-        return SLock(sched, role)
+            q = _owned_pool(sched)
+            if role == "cb" and name == "_write_parallel" and q is not None and sched.gcfg["pools"][q]["innerCb"]:
+                role = "cbin"  # the inner writer's own callback lock (taken before the outer one)
+        lk = SLock(sched, role)
+        lk.pool = _owned_pool(sched) if role == "cbin" else None
+        return lk
 
     def Condition(lock=None):
         holder = sys._getframe(1).f_locals.get("self")
@@ -445,6 +488,7 @@ class RunState:
         self.tofile_calls = []
         self.problems = []  # (signature, text)
         self.budgets = []
+        self.progress = 0  # bumped by every callback / tofile entry and exit
 
     def problem(self, sig, text):
         with self.meta:
@@ -477,6 +521,7 @@ class FTensor:
         st: RunState = self._st[0]
         task = getattr(st.tls, "task", None)
         with st.meta:
+            st.progress += 1
             st.active[self.o] = st.active.get(self.o, 0) + 1
             if st.active[self.o] > 1:
                 st.problems.append(("tensor-concurrent", f"tensor object {self.o} evaluated by two threads at once"))
@@ -495,6 +540,7 @@ class FTensor:
             file.write(self.data)
         finally:
             with st.meta:
+                st.progress += 1
                 st.active[self.o] -= 1
                 st.active_bytes -= self.nbytes
 
@@ -503,6 +549,7 @@ def make_callback(st_ref):
     def cb(tensor, info):
         st: RunState = st_ref[0]
         with st.meta:
+            st.progress += 1
             st.in_cb += 1
             if st.in_cb > 1:
                 st.problems.append(("callback-concurrent", "progress callback entered by two threads at once"))
@@ -580,6 +627,78 @@ def model_cfg(case):
                 tensors=tens, jobStarts=starts, files=[[] for _ in shards])
 
 
+def general_cfg(case):
+    """The configuration of the general (nested) Lean model `IrVerif.WriterN` for a case: a tree of pools.
+    None when the save is not concurrent at all."""
+    sizes = case_sizes(case)
+    n = len(sizes)
+    W = case["workers"]
+
+    def tensor(i, job, file, off):
+        t = case["tensors"][i]
+        return dict(obj=t["obj"], size=sizes[i], fails=t["fails"], cbFails=t["cbFails"], job=job, file=file,
+                    off=off, data=list(obj_bytes(t["obj"], sizes[i])))
+
+    base = dict(capacity=max(case["cap"], 1), nObjs=len(case["objs"]))
+    if case["mode"] == "parallel":
+        if not (W > 1 and n > 1):
+            return None
+        tens, off = [], 0
+        for i in range(n):
+            tens.append(tensor(i, i, 0, off))
+            off += sizes[i]
+        return dict(base, tensors=tens,
+                    pools=[dict(size=W, asCompleted=True, jobs=list(range(n)), innerCb=False, parent=None)],
+                    jobs=[dict(pool=0, start=i, sub=None) for i in range(n)], files=[[0] * off])
+    shards = shards_of(case)
+    S = len(shards)
+    if not (W > 1 and S > 1):
+        return None
+    sw = min(W, S)
+    wps = max(1, (W - sw) // sw)
+    pools = [dict(size=sw, asCompleted=False, jobs=list(range(S)), innerCb=False, parent=None)]
+    jobs = [None] * S
+    tens = [None] * n
+    files = []
+    for j, g in enumerate(shards):
+        total = sum(sizes[i] for i in g)
+        if wps > 1 and len(g) > 1:
+            # the shard driver runs `_write_parallel`: an inner pool whose jobs are the shard's tensors
+            q = len(pools)
+            inner = []
+            off = 0
+            for i in g:
+                jid = len(jobs)
+                jobs.append(dict(pool=q, start=i, sub=None))
+                inner.append(jid)
+                tens[i] = tensor(i, jid, j, off)
+                off += sizes[i]
+            pools.append(dict(size=wps, asCompleted=True, jobs=inner, innerCb=True, parent=j))
+            jobs[j] = dict(pool=0, start=g[0], sub=q)
+            files.append([0] * total)
+        else:
+            off = 0
+            for i in g:
+                tens[i] = tensor(i, j, j, off)
+                off += sizes[i]
+            jobs[j] = dict(pool=0, start=g[0], sub=None)
+            files.append([])
+    return dict(base, tensors=tens, pools=pools, jobs=jobs, files=files)
+
+
+def flat_label(lab):
+    k, a, b = lab
+    return [0, b] if k == 0 else [k, 0] if k in (1, 2) else [3, a]
+
+
+def flat_obs(o):
+    """Projection of an observation of the general model / the real run onto the vocabulary of the flat model."""
+    P = o["pools"][0]
+    return dict(main=P["owner"], queue=P["queue"], futs=o["futs"], idle=P["idle"], exited=P["exited"], tasks=o["tasks"],
+                cb=o["cb"], tl=o["tl"], inflight=o["inflight"], oversized=o["oversized"], shutdown=P["shutdown"],
+                log=o["log"], enabled=[flat_label(l) for l in o["enabled"]], terminal=o["terminal"])
+
+
 def call_writer(case, tensors, cb, base_dir, workers):
     from onnx_ir import external_data as ed
 
@@ -594,6 +713,11 @@ def call_writer(case, tensors, cb, base_dir, workers):
         alignment=None,
         align_threshold=1 << 20,
     )
+
+
+def canon_result(ext):
+    """What `unload_from_model` zips onto the initializers: per input position (file, offset, length, name)."""
+    return [[os.path.basename(str(t.location)), t.offset, t.length, t.name] for t in ext]
 
 
 def read_files(base_dir):
@@ -616,8 +740,8 @@ def serial_reference(case):
     tensors = build_tensors(clean, st_ref)
     d = tempfile.mkdtemp(prefix="c09s-", dir=_TMP_ROOT)
     try:
-        call_writer(clean, tensors, make_callback(st_ref), d, None)
-        return read_files(d)
+        ext = call_writer(clean, tensors, make_callback(st_ref), d, None)
+        return {"files": read_files(d), "result": canon_result(ext)}
     finally:
         shutil.rmtree(d, ignore_errors=True)
 
@@ -625,7 +749,8 @@ def serial_reference(case):
 # --------------------------------------------------------------------------- controlled run (director)
 
 OBS_KEYS = ["main", "queue", "futs", "idle", "exited", "tasks", "cb", "tl", "inflight", "oversized",
-            "shutdown", "log", "enabled", "terminal"]
+            "shutdown", "log", "enabled", "terminal"]  # flat model vocabulary
+GOBS_KEYS = ["pools", "futs", "tasks", "cb", "cbin", "tl", "inflight", "oversized", "log", "enabled", "terminal"]
 
 
 def _op_pc(ct: CThread):
@@ -634,7 +759,7 @@ def _op_pc(ct: CThread):
         return "?running"
     k = op[0]
     if k == "lock":
-        return {"cb": "cbAcq", "tensor": "tAcq"}.get(op[1].role, "?lock:" + op[1].role)
+        return {"cb": "cbAcq", "cbin": "cbAcqIn", "tensor": "tAcq"}.get(op[1].role, "?lock:" + op[1].role)
     if k == "body":
         return "cbBody" if op[1] == "cb" else "write"
     if k == "cond":
@@ -665,25 +790,28 @@ def _op_enabled(ct: CThread):
 
 
 class Director:
-    def __init__(self, case, cfg):
+    def __init__(self, case, gcfg):
         from onnx_ir import external_data as ed
 
         self.ed = ed
-        self.case, self.cfg = case, cfg
+        self.case, self.gcfg = case, gcfg
         self.n = len(case["tensors"])
-        self.njobs = len(cfg["jobStarts"])
-        self.sched = Sched(cfg["jobStarts"])
+        self.njobs = len(gcfg["jobs"])
+        self.npools = len(gcfg["pools"])
+        self.sched = Sched(gcfg)
         self.st = RunState(case, sched=self.sched)
         self.st_ref = [self.st]
         self.dir = tempfile.mkdtemp(prefix="c09c-", dir=_TMP_ROOT)
         self.at_return = None
+        self.result = None
 
     # ---- the controlled main thread
     def _main_body(self):
         ct = self.sched.cur()
         tensors = build_tensors(self.case, self.st_ref)
         try:
-            call_writer(self.case, tensors, make_callback(self.st_ref), self.dir, self.case["workers"])
+            ext = call_writer(self.case, tensors, make_callback(self.st_ref), self.dir, self.case["workers"])
+            self.result = canon_result(ext)
             ct.outcome = "returned"
         except _Abort:
             raise
@@ -705,18 +833,26 @@ class Director:
             waiters=sum(len(c.waiters) for c in s.conds),
         )
 
-    # ---- observation of the real state, in the model's vocabulary
+    # ---- observation of the real state, in the (general) model's vocabulary
+    def _owner_op(self, ex):
+        """(thread, op kind) of the owner of executor `ex` if it is parked on an operation of that executor."""
+        t = ex.owner
+        if t.exited or not t.pending:
+            return t, None
+        op = t.pending
+        k = op[0]
+        tgt = op[1] if k in ("submit", "join") else op[1].ex if k == "result" else (op[1][0].ex if k == "collect" and op[1] else None)
+        return t, (k if tgt is ex else None)
+
     def observe(self):
         s, st = self.sched, self.st
         M = s.main
-        ex = s.executors[0] if s.executors else None
-        if M.exited:
-            main = M.outcome or "?exited"
-        else:
-            main = {"submit": "submit", "collect": "collect", "result": "collect", "join": "join"}.get(
-                M.pending[0] if M.pending else "?", "?" + str(M.pending[0] if M.pending else None))
-        futs = [f.state for f in ex.futs] if ex else []
-        futs += ["pending"] * (self.njobs - len(futs))
+        by_pool = {ex.pool: ex for ex in s.executors if ex.pool is not None}
+        futs = ["pending"] * self.njobs
+        for ex in s.executors:
+            for f in ex.futs:
+                if f.job < self.njobs:
+                    futs[f.job] = f.state
         tasks = ["notStarted"] * self.n
         for i, v in s.task_done.items():
             if 0 <= i < self.n:
@@ -728,46 +864,60 @@ class Director:
         for l in s.locks:
             if l.role == "tensor" and l.owner is not None and l.owner.task is not None:
                 tl[self.case["tensors"][l.owner.task]["obj"]] = True
+        cbin = [False] * self.npools
+        for l in s.locks:
+            if l.role == "cbin" and l.owner is not None and l.pool is not None:
+                cbin[l.pool] = True
         bud = s.conds[0].holder if s.conds else None
-        enabled = []
-        if not M.exited and M.pending:
-            k = M.pending[0]
+        pools, owners_en, pool_en = [], [], []
+        runnable = False
+        for q in range(self.npools):
+            ex = by_pool.get(q)
+            if ex is None:
+                pools.append(dict(owner="notCreated", queue=[], idle=0, exited=0, shutdown=False))
+                continue
+            t, k = self._owner_op(ex)
+            if q == 0 and M.exited:
+                owner = M.outcome or "?exited"
+            elif ex.joined:
+                owner = "raised" if ex.cancel_called else "returned"
+            else:
+                owner = {"submit": "submit", "collect": "collect", "result": "collect", "join": "join"}.get(k, "?" + str(k))
+            takers = [w for w in ex.threads if not w.exited and w.pending and w.pending[0] == "take"]
+            pools.append(dict(owner=owner, queue=[f.job for f, *_ in ex.queue], idle=len(takers),
+                              exited=sum(1 for w in ex.threads if w.exited), shutdown=bool(ex.shutdown_flag)))
             if k == "submit":
-                enabled.append([0, 0])
+                owners_en.append([0, q, 0])
             elif k == "collect":
-                enabled += [[0, f.job] for f in sorted(M.pending[1], key=lambda f: f.job) if f.done() and not f.collected]
+                owners_en += [[0, q, f.job] for f in sorted(t.pending[1], key=lambda f: f.job) if f.done() and not f.collected]
             elif k == "result":
-                if M.pending[1].done():
-                    enabled.append([0, 0])
+                if t.pending[1].done():
+                    owners_en.append([0, q, 0])
             elif k == "join":
-                if all(w.exited for w in s.workers if w.executor is M.pending[1]):
-                    enabled.append([0, 0])
-        takers = [w for w in s.workers if not w.exited and w.pending and w.pending[0] == "take"]
-        if takers and ex and ex.queue:
-            enabled.append([1, 0])
-        if takers and ex and not ex.queue and ex.shutdown_flag:
-            enabled.append([2, 0])
+                if all(w.exited for w in ex.threads):
+                    owners_en.append([0, q, 0])
+            if takers and ex.queue:
+                pool_en.append([1, q, 0])
+            if takers and not ex.queue and ex.shutdown_flag:
+                pool_en.append([2, q, 0])
+            if takers and (ex.queue or ex.shutdown_flag):
+                runnable = True
+        task_en = []
         for i in range(self.n):
             for w in s.workers:
                 if w.task == i and not w.exited and _op_enabled(w):
-                    enabled.append([3, i])
-        self.raw_runnable = bool(
-            any(not w.exited and _op_enabled(w) for w in s.workers)
-            or (takers and ex and (ex.queue or ex.shutdown_flag))
-            or any(l[0] == 0 for l in enabled)
-        )
+                    task_en.append([3, i, 0])
+        enabled = owners_en + sorted(pool_en, key=lambda l: (l[1], l[0])) + task_en
+        self.raw_runnable = bool(runnable or owners_en or any(not w.exited and _op_enabled(w) for w in s.workers))
         return dict(
-            main=main,
-            queue=[f.job for f, *_ in ex.queue] if ex else [],
+            pools=pools,
             futs=futs,
-            idle=len(takers),
-            exited=sum(1 for w in s.workers if w.exited),
             tasks=tasks,
             cb=any(l.role == "cb" and l.owner is not None for l in s.locks),
+            cbin=cbin,
             tl=tl,
             inflight=getattr(bud, "_in_flight", 0),
             oversized=bool(getattr(bud, "_oversized_active", False)),
-            shutdown=bool(ex.shutdown_flag) if ex else False,
             log=list(st.log),
             enabled=enabled,
             terminal=bool(M.exited),
@@ -775,12 +925,20 @@ class Director:
 
     def resolve(self, label):
         s = self.sched
-        k, a = label
+        k, a, b = label
+        ex = next((e for e in s.executors if e.pool == a), None) if k in (0, 1, 2) else None
         if k == 0:
-            s.choice = a
-            return s.main
+            if ex is None:
+                return None
+            t, op = self._owner_op(ex)
+            if op is None:
+                return None
+            s.choice = b
+            return t
         if k in (1, 2):
-            for w in s.workers:
+            if ex is None:
+                return None
+            for w in ex.threads:
                 if not w.exited and w.pending and w.pending[0] == "take":
                     return w
             return None
@@ -802,7 +960,7 @@ class Director:
             while status == "ok":
                 obs = self.observe()
                 trace.append(obs)
-                if s.executors and len(s.workers) != self.cfg["workers"]:
+                if any(ex.pool is None or len(ex.threads) != self.gcfg["pools"][ex.pool]["size"] for ex in s.executors):
                     status = "pool-size"
                     break
                 if obs["terminal"]:
@@ -830,7 +988,7 @@ class Director:
                 s.kill()
             uninstall_shim(self.ed, saved)
             shutil.rmtree(self.dir, ignore_errors=True)
-        return dict(labels=labels, trace=trace, status=status, files=files, outcome=s.main.outcome,
+        return dict(labels=labels, trace=trace, status=status, files=files, outcome=s.main.outcome, result=self.result,
                     at_return=self.at_return, problems=list(self.st.problems), log=list(self.st.log),
                     max_active_bytes=self.st.max_active_bytes, tofile_calls=list(self.st.tofile_calls))
 
@@ -872,8 +1030,21 @@ def oracle(case, res, serial, mode_tag, out):
             out.fail(f"{mode_tag}:error-swallowed", "a tensor failed but the save returned normally", info)
         if sorted(log) != list(range(n)):
             out.fail(f"{mode_tag}:callback-missing", f"successful save but callback log is {log}", info)
-        if res["files"] != serial:
+        if res["files"] != serial["files"]:
             out.fail(f"{mode_tag}:bytes-differ", "files differ from the serial save", info)
+        ret = res.get("result")
+        if ret != serial["result"]:
+            out.fail(f"{mode_tag}:result-differs",
+                     "the external tensors returned for the initializers (file, offset, length, name per input "
+                     f"position) differ from the serial save: {ret} != {serial['result']}", info)
+        elif ret is not None:
+            # read every initializer back through its (file, offset, length): must be its own bytes
+            for i, (fn, off, ln, _name) in enumerate(ret):
+                want = list(obj_bytes(case["tensors"][i]["obj"], sizes[i]))
+                got = res["files"].get(fn, [])[off: off + ln]
+                if got != want:
+                    out.fail(f"{mode_tag}:readback-differs", f"initializer {i} reads back {got} instead of {want}", info)
+                    break
     elif res["outcome"] == "raised" and not anyfail:
         out.fail(f"{mode_tag}:spurious-error", f"no failure injected but the save raised {res.get('exc')}", info)
 
@@ -906,7 +1077,8 @@ def run_os(case, seed):
 
     def body():
         try:
-            call_writer(case, tensors, make_callback(st_ref), d, case["workers"])
+            ext = call_writer(case, tensors, make_callback(st_ref), d, case["workers"])
+            res["result"] = canon_result(ext)
             res["outcome"] = "returned"
         except BaseException as e:  # noqa: BLE001
             res["outcome"] = "raised"
@@ -925,9 +1097,20 @@ def run_os(case, seed):
     try:
         th = _rt.Thread(target=body, daemon=True)
         th.start()
-        th.join(OS_TIMEOUT)
-        if th.is_alive():
-            res["status"] = "hang"
+        t0 = last = time.time()
+        seen = -1
+        while True:
+            th.join(0.25)
+            if not th.is_alive():
+                break
+            now = time.time()
+            if st.progress != seen:
+                seen, last = st.progress, now
+            if now - last > OS_STALL or now - t0 > OS_TIMEOUT:
+                res["status"] = "hang"
+                break
+        if res["status"] == "hang":
+            pass
         else:
             res["files"] = read_files(d)
     finally:
@@ -959,7 +1142,19 @@ def fixed_cases(thorough=False):
          dict(mode="shards", workers=3, cap=2, shard=3, objs=[dict(size=3), dict(size=1), dict(size=2)],
               tensors=[T(0), T(1), T(2), T(1)])),
     ]
-    return (extra if thorough else []) + [
+    nested = [
+        # nested writers: 2 shards x 2 inner workers (max_workers=6), 4 tensors, tensor 1 oversized (5 > 4),
+        # object 0 shared by tensors 0 and 2 (different shards), tensor 3 fails
+        ("nested-2x2w-4t-oversized-shared-failing",
+         dict(mode="shards", workers=6, cap=4, shard=7, objs=[dict(size=2), dict(size=5), dict(size=2)],
+              tensors=[T(0), T(1), T(0), T(2, True)])),
+    ]
+    extra += [
+        ("nested-2x2w-4t-oversized-shared",
+         dict(mode="shards", workers=6, cap=4, shard=7, objs=[dict(size=2), dict(size=5), dict(size=2)],
+              tensors=[T(0), T(1), T(0), T(2)])),
+    ]
+    return (extra if thorough else []) + nested + [
         # 2 workers, 3 tensors: one oversized (6 > 4), one object shared by tensors 0 and 2, tensor 1 fails
         ("par-2w-3t-oversized-shared-failing",
          dict(mode="parallel", workers=2, cap=4, shard=None, objs=[dict(size=3), dict(size=6)],
@@ -1014,68 +1209,104 @@ def random_case(rng, big: bool, allow_nested=False):
 # --------------------------------------------------------------------------- work items (run in worker processes)
 
 
-def _canon_obs(o):
-    return {k: o[k] for k in OBS_KEYS}
+def _diff_traces(part, what, info, mobs, trace, keys, r, stuck):
+    """First difference between the model's and the implementation's observation sequences."""
+    for k, (a, b) in enumerate(zip(mobs, trace)):
+        a = {x: a[x] for x in keys}
+        b = {x: b[x] for x in keys}
+        if a != b:
+            diff = {x: (a[x], b[x]) for x in keys if a[x] != b[x]}
+            part.disagree(f"{what}: state after step {k} differs in {sorted(diff)}", info,
+                          model={x: v[0] for x, v in diff.items()}, impl={x: v[1] for x, v in diff.items()})
+            return False
+    if stuck is not None and r["status"] == "ok":
+        part.disagree(f"{what}: label {r['labels'][stuck]} taken by the implementation is not enabled in the model", info)
+        return False
+    if r["status"] == "ok" and len(mobs) != len(trace):
+        part.disagree(f"{what}: trace lengths differ", info, model=len(mobs), impl=len(trace))
+        return False
+    return r["status"] == "ok"
 
 
-def _compare(part, name, case, cfg, results, serial):
-    """Model vs implementation on the schedules actually executed + oracle on every run."""
-    reqs = [{"m": "writer.run", "cfg": cfg, "sched": r["labels"]} for r in results]
+def _compare(part, name, case, gcfg, results, serial):
+    """Models vs implementation on the schedules actually executed + oracle on every run.
+
+    Every run is compared with the general model `IrVerif.WriterN` (`writern.run`); runs of the flat modes
+    (single-file parallel writer, shard drivers with serial writers) are compared with `IrVerif.Writer`
+    (`writer.run`) as well, through the projection `flat_obs` / `flat_label`."""
+    fcfg = model_cfg(case)
+    reqs = []
+    for r in results:
+        reqs.append({"m": "writern.run", "cfg": gcfg, "sched": r["labels"]})
+        if fcfg is not None:
+            reqs.append({"m": "writer.run", "cfg": fcfg, "sched": [flat_label(l) for l in r["labels"]]})
     outs = lean_batch(reqs) if reqs else []
-    for r, out in zip(results, outs):
+    per = 2 if fcfg is not None else 1
+    nested = fcfg is None
+    for idx, r in enumerate(results):
+        out = outs[per * idx]
+        fout = outs[per * idx + 1] if fcfg is not None else None
         trace = r["trace"]
         waits = any("waiting" in o["tasks"] for o in trace)
         part.case(
             [name, case, r["labels"]],
             nontrivial=len(r["labels"]) > 0,
             sample={"config": name, "case": case, "schedule": r["labels"][:12] + (["..."] if len(r["labels"]) > 12 else [])},
-            mode=case["mode"], workers=case["workers"], tensors=min(len(case["tensors"]), 8), outcome=r["outcome"],
-            waited=waits, cancelled=any("cancelled" in o["futs"] for o in trace), steps=min(len(r["labels"]) // 10 * 10, 80),
+            mode=case["mode"] + ("-nested" if nested else ""), workers=case["workers"],
+            tensors=min(len(case["tensors"]), 8), outcome=r["outcome"],
+            waited=waits, cancelled=any("cancelled" in o["futs"] for o in trace), steps=min(len(r["labels"]) // 10 * 10, 120),
             oversized=sum(1 for s in case_sizes(case) if s > max(case["cap"], 1)),
             shared=len(case["tensors"]) - len({t["obj"] for t in case["tensors"]}),
         )
         info = {"config": name, "case": case, "labels": r["labels"], "mode": "controlled"}
-        if "err" in out:
-            part.disagree("driver error: " + out["err"], info)
+        if "err" in out or (fout is not None and "err" in fout):
+            part.disagree("driver error: " + str(out.get("err") or fout.get("err")), info)
             continue
-        if not out.get("wf", False):
+        if not out.get("wf", False) or (fout is not None and not fout.get("wf", False)):
             part.disagree("generated configuration is not well-formed for the model (WF)", info)
-        mobs = out["obs"]
         if r["status"] == "not-enabled":
             part.disagree(
                 f"label {r['labels'][-1]} enabled in the model but not in the implementation (step {len(r['labels']) - 1})",
                 info, model="enabled", impl=trace[-1]["enabled"] if trace else None)
         elif r["status"] == "pool-size":
-            part.disagree("pool size differs from the model's worker count", info)
-        k = 0
-        for k, (a, b) in enumerate(zip(mobs, trace)):
-            a = _canon_obs(a)
-            if a != b:
-                diff = {x: (a[x], b[x]) for x in OBS_KEYS if a[x] != b[x]}
-                part.disagree(f"state after step {k} differs in {sorted(diff)}", info, model={x: v[0] for x, v in diff.items()},
-                              impl={x: v[1] for x, v in diff.items()})
-                break
-        else:
-            if out["stuck"] is not None and r["status"] == "ok":
-                part.disagree(f"label {r['labels'][out['stuck']]} taken by the implementation is not enabled in the model", info)
-            elif r["status"] == "ok" and len(mobs) != len(trace):
-                part.disagree("trace lengths differ", info, model=len(mobs), impl=len(trace))
-            elif r["status"] == "ok":
-                # final bytes: the model's image of every completed file vs the files on disk (a failed
-                # single-file save / failed shard leaves no file: the temporary file is removed, C08)
-                mf = out["final"]["files"]
+            part.disagree("pool sizes differ from the model's", info)
+        ok = _diff_traces(part, "general model", info, out["obs"], trace, GOBS_KEYS, r, out["stuck"])
+        if fout is not None:
+            ok = _diff_traces(part, "flat model", info, fout["obs"], [flat_obs(o) for o in trace], OBS_KEYS, r,
+                              fout["stuck"]) and ok
+        if ok:
+            # final bytes: the models' image of every completed file vs the files on disk (a failed
+            # single-file save / failed shard leaves no file: the temporary file is removed, C08)
+            for which, o in (("general", out), ("flat", fout)):
+                if o is None:
+                    continue
+                mf = o["final"]["files"]
                 if case["mode"] == "parallel":
                     expect = {"w.data": mf[0]} if r["outcome"] == "returned" else {}
                 else:
                     from onnx_ir import external_data as ed
 
                     expect = {ed._get_shard_filename("w.data", j + 1, len(mf)): mf[j]
-                              for j in range(len(mf)) if out["final"]["futs"][j] == "ok"}
+                              for j in range(len(mf)) if o["final"]["futs"][j] == "ok"}
                 if expect != r["files"]:
-                    part.disagree("final file bytes differ", info, model=expect, impl=r["files"])
-                if r["outcome"] == "returned" and out["serial"] != out["final"]["files"]:
-                    part.disagree("model: final image differs from the model's serial image", info)
+                    part.disagree(f"{which} model: final file bytes differ", info, model=expect, impl=r["files"])
+                if r["outcome"] == "returned" and o["serial"] != o["final"]["files"]:
+                    part.disagree(f"{which} model: final image differs from the model's serial image", info)
         oracle(case, r, serial, "controlled", part)
+
+
+def _hang_seen(item):
+    m = item.get("marker")
+    return bool(m) and os.path.exists(m)
+
+
+def _mark_hang(item):
+    m = item.get("marker")
+    if m:
+        try:
+            open(m, "w").close()
+        except OSError:
+            pass
 
 
 def _work(item):
@@ -1101,8 +1332,8 @@ def _work(item):
 
             rng = random.Random(item["seed"])
             for _ in range(item["count"]):
-                case = random_case(rng, item["big"])
-                cfg = model_cfg(case)
+                case = random_case(rng, item["big"], allow_nested=True)
+                cfg = general_cfg(case)
                 if cfg is None:
                     part.count("walk_skipped_unmodelled")
                     continue
@@ -1122,13 +1353,16 @@ def _work(item):
                 case = random_case(rng, item["big"], allow_nested=True)
                 serial = serial_reference(case)
                 for rep in range(item["reps"]):
+                    if _hang_seen(item):
+                        return dict(part)  # a hang is already reported; further runs would only block again
                     r = run_os(case, rng.randrange(1 << 30))
                     nested = model_cfg(case) is None
                     part.case(["os", case, rep], nontrivial=True, os_mode=case["mode"], os_nested=nested,
                               os_outcome=r["outcome"], os_workers=min(case["workers"], 9))
                     oracle(case, r, serial, "os", part)
                     if r["status"] == "hang":
-                        return dict(part)  # every further run would block for the whole timeout again
+                        _mark_hang(item)
+                        return dict(part)
     except Exception as e:  # noqa: BLE001
         import traceback
 
@@ -1159,21 +1393,29 @@ def run(ctx: Ctx) -> None:
     # 1. exhaustive: every transition of the reachable state graph of the small configurations
     fixed = fixed_cases(thorough=not ctx.quick)
     max_states = ctx.pick(60000, 2000000)
-    covers = lean_batch([{"m": "writer.cover", "cfg": model_cfg(c), "maxStates": max_states} for _, c in fixed])
+    def cap(name):
+        # the nested configuration has 72 197 states / 215 352 transitions: complete in the thorough tier only;
+        # the quick tier explores a depth-first part of it and executes a seeded sample of the schedules
+        return 5000 if (ctx.quick and name.startswith("nested")) else max_states
+
+    covers = lean_batch([{"m": "writern.cover", "cfg": general_cfg(c), "maxStates": cap(n)} for n, c in fixed])
     for (name, case), cov in zip(fixed, covers):
         if "err" in cov:
-            raise Infra("writer.cover: " + cov["err"])
-        cfg = model_cfg(case)
+            raise Infra("writern.cover: " + cov["err"])
+        cfg = general_cfg(case)
+        scheds = cov["scheds"]
         ctx.count(f"cover_states[{name}]", cov["states"])
         ctx.count(f"cover_edges[{name}]", cov["edges"])
-        ctx.count(f"cover_schedules[{name}]", len(cov["scheds"]))
         if cov["deadlocks"]:
             ctx.disagree(f"model reaches {cov['deadlocks']} non-terminal states without an enabled label", {"config": name})
         if not cov["truncated"]:
             ctx.exhaustive_scopes.append(
                 f"{name}: all {cov['edges']} transitions of the {cov['states']} reachable states "
-                f"({len(cov['scheds'])} complete schedules), each executed by the real writer")
-        for ch in _chunks(cov["scheds"], max(20, len(cov["scheds"]) // 48 + 1)):
+                f"({len(scheds)} complete schedules), each executed by the real writer")
+        else:
+            scheds = ctx.rng.sample(scheds, min(len(scheds), 2500))
+        ctx.count(f"cover_schedules[{name}]", len(scheds))
+        for ch in _chunks(scheds, max(20, len(scheds) // 48 + 1)):
             items.append(dict(kind="sched", name=name, case=case, cfg=cfg, scheds=ch))
     # 2. random walks on random configurations
     nwalk = ctx.pick(96, 480)
@@ -1184,8 +1426,16 @@ def run(ctx: Ctx) -> None:
     for k in range(ctx.pick(16, 64)):
         items.append(dict(kind="os", seed=ctx.rng.randrange(1 << 30), count=ctx.pick(6, 20), reps=ctx.pick(3, 6),
                           big=not ctx.quick))
+    marker = os.path.join(_TMP_ROOT or tempfile.gettempdir(), f"c09-hang-{os.getpid()}")
+    for it in items:
+        it["marker"] = marker
     ctx.rng.shuffle(items)
-    for part in pmap(_work, items):
+    try:
+        parts = pmap(_work, items)
+    finally:
+        if os.path.exists(marker):
+            os.remove(marker)
+    for part in parts:
         crash = part.get("extra", {}).get("crash")
         if crash:
             raise Infra("worker crashed: " + crash)
@@ -1206,7 +1456,10 @@ def _replay_into(part, obj: dict) -> None:
     if mode not in ("os", "controlled"):
         mode = "controlled"
     serial = serial_reference(case)
-    cfg = model_cfg(case)
+    cfg = general_cfg(case)
+    if labels is not None:  # labels recorded in the flat vocabulary
+        labels = [[l[0], 0, l[1]] if len(l) == 2 and l[0] == 0 else [l[0], l[1], 0] if len(l) == 2 and l[0] == 3
+                  else [l[0], 0, 0] if len(l) == 2 else list(l) for l in labels]
     if mode == "os" or labels is None or cfg is None:
         for rep in range(20):
             r = run_os(case, rep)
